@@ -7,6 +7,7 @@ Everything they call is external with an *uninterpreted deterministic* contract
 import re
 
 import extract
+import parts
 from verus_engine import (Built, gen_clone_impls, parse_enum_variants, gen_selectors, SELECTOR_PRELUDE,
                           desugar_for, assemble)
 from common import Undecided
@@ -34,9 +35,7 @@ pub struct ExFromUtf8Error(FromUtf8Error);
 pub struct EvaluationContext { _p: () }
 #[verifier::external_body]
 pub struct ScopeStack { _p: () }
-#[verifier::external_body]
-pub struct Value { _p: () }
-pub struct SourcedValue { pub v: Value, pub source: Option<Value> }
+/*VALUE_ITEMS*/
 pub type Result<T> = std::result::Result<T, Error>;
 
 // The abstract world: everything an evaluation step can read or change (heap cells, scope
@@ -49,14 +48,6 @@ impl ScopeStack {
 impl Clone for ScopeStack {
     #[verifier::external_body]
     fn clone(&self) -> (r: Self) ensures r.world() == self.world() { unimplemented!() }
-}
-impl Clone for Value {
-    #[verifier::external_body]
-    fn clone(&self) -> (r: Self) ensures r == *self { unimplemented!() }
-}
-impl Clone for SourcedValue {
-    #[verifier::external_body]
-    fn clone(&self) -> (r: Self) ensures r == *self { unimplemented!() }
 }
 // D5: `.clone()` on the tuple alias `Expr` (Verus: "built-in instance Misc")
 #[verifier::external_body]
@@ -491,11 +482,12 @@ LOOP_STMTS = {
 SPEC_STMT = r"""
     ensures
         stmt is Block ==> (out(r), final(scopes).world()) == spec_stmt(old(scopes).world(), *stmt), // [C07_C20:bare_block_runs_in_its_own_fresh_scope_and_forwards_the_signal_of_its_body]
-        stmt is If ==> (out(r), final(scopes).world()) == spec_stmt(old(scopes).world(), *stmt), // [C07_C20:if_chain_runs_exactly_the_first_true_branch_or_else_each_in_its_own_fresh_scope_and_forwards_its_signal]
-        stmt is While ==> (out(r), final(scopes).world()) == spec_stmt(old(scopes).world(), *stmt), // [C07:while_rechecks_condition_each_trip_and_break_continue_return_reach_their_target]
+        stmt is If ==> (out(r), final(scopes).world()) == spec_stmt(old(scopes).world(), *stmt), // [C07_C16_C20:if_chain_runs_exactly_the_first_true_branch_or_else_each_in_its_own_fresh_scope_conditions_are_checked_to_be_bool_and_it_forwards_its_signal]
+        stmt is While ==> (out(r), final(scopes).world()) == spec_stmt(old(scopes).world(), *stmt), // [C07_C16:while_rechecks_condition_each_trip_the_condition_is_checked_to_be_bool_and_break_continue_return_reach_their_target]
         stmt is For ==> (out(r), final(scopes).world()) == spec_stmt(old(scopes).world(), *stmt), // [C07:for_walks_the_entry_snapshot_in_order_and_break_continue_return_reach_their_target]
         (stmt is Break || stmt is Continue || stmt is Return) ==> (out(r), final(scopes).world()) == spec_stmt(old(scopes).world(), *stmt), // [C07:break_continue_return_signal_with_their_own_position_and_value]
-        (stmt is Expr || stmt is Declare || stmt is Assign || stmt is OpAssign || stmt is Func) ==> (out(r), final(scopes).world()) == spec_stmt(old(scopes).world(), *stmt), // [C07:simple_statement_completes_or_fails_and_never_signals]
+        (stmt is Expr || stmt is Declare || stmt is Assign || stmt is OpAssign) ==> (out(r), final(scopes).world()) == spec_stmt(old(scopes).world(), *stmt), // [C07:simple_statement_completes_or_fails_and_never_signals]
+        stmt is Func ==> (out(r), final(scopes).world()) == spec_stmt(old(scopes).world(), *stmt), // [C07_C13_C20:a_function_declaration_validates_all_its_parameters_then_declares_the_name_and_never_signals]
         (out(r), final(scopes).world()) == spec_stmt(old(scopes).world(), *stmt), // [C07:statement_signal_is_the_documented_one]
         r matches Err(e) ==> located(e), // [C17:statement_errors_are_located]
 """
@@ -644,7 +636,7 @@ def build(read):
 
     b.text = assemble([
         "// GENERATED on every run by /verif/verus/ctl.py from /repo's working tree - do not edit",
-        PRELUDE,
+        PRELUDE.replace("/*VALUE_ITEMS*/", parts.value_items(b, read) + parts.value_model(True)),
         SELECTOR_PRELUDE,
         selectors,
         "// ---- verbatim from src/eval/error.rs (attributes stripped)",
